@@ -321,6 +321,32 @@ let do_mvt (op : string) (a : string list) : string =
       if List.exists (fun t -> t = None) tiles then "err" else
       (match merge_tiles [] (List.map (function Some t -> t | None -> []) tiles) with
        | Some ls -> dump_mtile true ls | None -> "err")
+  | "mvt.upd", [h; lname; flags; rows; idmap] ->
+      (* flags: replace, remove_non_matching, include_id as 0/1; rows: data rows `key=value&...` joined by '|' ("-" = none),
+         the id column is "id", id_field_tiles is "tid"; idmap: `<index in the named layer's value table>:<row>` pairs:
+         which values' Display text equals which row's id (computed by the harness with std) *)
+      let value_of_dump (t : string) : value0 =
+        let rest = String.sub t 1 (String.length t - 1) in
+        (match t.[0] with
+         | 's' -> VStr0 (bytes_of_hex rest) | 'f' -> VFloat (n_of_string rest) | 'd' -> VDouble (n_of_string rest)
+         | 'i' -> VInt (z_of_string rest) | 'u' -> VUInt (n_of_string rest) | 'b' -> VBool0 (rest = "1") | _ -> failwith ("value " ^ t)) in
+      let row_of (t : string) = List.map (fun kv -> match split_on '=' kv with [k; v] -> (bytes_of_hex k, value_of_dump v) | _ -> failwith kv) (List.filter (fun x -> x <> "") (split_on '&' t)) in
+      let rows = if rows = "-" then [] else List.map row_of (split_on '|' rows) in
+      let flag i = flags.[i] = '1' in
+      let name = bytes_of_hex lname in
+      (match dec_tile h with
+       | None -> "err"
+       | Some ls ->
+         let pairs = if idmap = "-" then [] else List.map (fun t -> match split_on ':' t with [j; r] -> (int_of_string j, int_of_string r) | _ -> failwith t) (split_on ',' idmap) in
+         (* the value table of the (first) layer with that name gives the values the indices refer to *)
+         let vals = match List.filter (fun l -> l.lname = name) ls with l :: _ -> l.lvals | [] -> [] in
+         let find (v : value0) : (n list * value0) list option =
+           let rec go j = function
+             | [] -> None
+             | x :: r -> if x = v && List.mem_assoc j pairs then Some (row_props (flag 2) (codes "id") (List.nth rows (List.assoc j pairs))) else go (j + 1) r in
+           go 0 vals in
+         (match update_tile find (codes "tid") (flag 0) (flag 1) name ls with
+          | Some out -> dump_mtile false out | None -> "err"))
   | _ -> "?mvt-args"
 
 (* ---------- C12 crash states ---------- *)
@@ -473,7 +499,7 @@ let dispatch (op : string) (args : string list) : string =
       | _ -> "?geo-args")
   | "tileid" | "idcoord" | "pmdir.ser" | "pmdir.de" | "pmdir.find" | "vtblocks" | "vtindex" -> do_fmt op args
   | "c12.vt" | "c12.pm" | "c12.vthdr" | "c12.pmhdr" -> do_c12 op args
-  | "varint" | "svarint" | "mvt.dec" | "mvt.rt" | "mvt.merge" -> do_mvt op args
+  | "varint" | "svarint" | "mvt.dec" | "mvt.rt" | "mvt.merge" | "mvt.upd" -> do_mvt op args
   | _ when String.length op > 5 && String.sub op 0 5 = "json." -> do_json op args
   | "sysprog" -> (match args with
       | [off; len] -> String.concat "," (List.map (function
